@@ -203,7 +203,15 @@ def _fn(name):
 PROLOGUE = {('shared_svg', 'shared_matrix'), ('shared_eps', 'shared_png'), ('shared_svg', 'shared_iter'), ('shared_png', 'shared_eps')}
 
 
+# the SAME request in both threads after a different earlier request of the same kind (a "previous call" memo that is published
+# before it is complete is only wrong for a second caller with the same key)
+PRIOR = {('seq_count_200', 'seq_count_200'): 'seq_count_tiny', ('make_1h', 'make_1h'): 'make_2_align', ('save_png_twins', 'save_png_twins'): 'save_svg_twins',
+         ('make_7_version', 'make_7_version'): 'make_8_version', ('helper_epc', 'helper_epc'): 'helper_epc_b'}
+
+
 def _prologue(a, b):
+    if (a, b) in PRIOR:
+        O.observe(PRIOR[(a, b)])
     if (a, b) in PROLOGUE:
         O.prologue_shared()             # one symbol created before the threads start; both threads work on the SAME object
 
@@ -306,6 +314,8 @@ def plan_schedules(tier):
     for (a, b) in (('make_1h', 'make_1h_other'), ('make_m1_numeric', 'make_m1_other'), ('iter_verbose_v2_a', 'iter_verbose_v2_b'),
                    ('ppm_small_a', 'ppm_small_b'), ('make_7_version', 'make_8_version')):
         plan.append((a, b, 'sharedw', 1))
+    for (a, b) in PRIOR:
+        plan.append((a, b, 'shared', 1 if q else 2))
     for (a, b, fname) in PAIRS_FILE:
         plan.append((a, b, 'line@' + fname, 1 if q else 2))
     if not q:
